@@ -81,6 +81,18 @@ def generate(ctx):
         yield from mixed_sections(rng)
     except Exception as e:
         C.log(f"C08: mixed-sections generator failed: {e!r}")
+    # directed: two unrelated cabinets on one decompressor, the second with a folder that cannot be set up (unknown
+    # method, window size out of range): its failure must not disturb the first cabinet's members
+    for (dl, dm) in S.two_cabinets_damaged_second(rng):
+        files = [l for l in dl if l.startswith("file ")]
+        hist = [(0, 0), (1, 0), (0, 0), (0, 1), (1, 1), (0, 1), (1, 0), (0, 0)]
+        lines = files + ["new cab", "open i0 a.cab", "open i0 b.cab"] + [f"extract i0 h{ai} {j} out" for (ai, j) in hist]
+        inst = 1; nh = 2
+        for (ai, j) in sorted(set(hist)):
+            lines += ["new cab", f"open i{inst} a.cab", f"open i{inst} b.cab", f"extract i{inst} h{nh + ai} {j} out", f"destroy i{inst}"]
+            nh += 2; inst += 1
+        yield lines, dict(family="cab.history-two-cabinets", hist=[list(x) for x in hist], distinct=[list(x) for x in sorted(set(hist))],
+                          damaged=True, two=True, nontrivial=True, **dm)
     n = 40 if ctx.tier == "quick" else 1500
     k = 0
     while k < n:
